@@ -343,4 +343,80 @@ theorem valid_h5_structural_partial (dateOk : String → Bool) (h : H5)
           rw [hnone] at hvb
           simp at hvb
 
+/-! ### concrete tables: non-vacuity and the witnesses of the known finding -/
+
+def okDate : String → Bool := fun _ => true
+
+/-- a 2 x 3 table of the domain -/
+def wT : WTable :=
+  { obs := ["o1", "o2"], samp := ["s1", "s2", "s3"],
+    omd := [.null, .obj [("taxonomy", .arr [.str "k__A"])]], smd := [.null, .null, .null],
+    grid := [[1, 0, 3], [0, 2, 0]], ttype := "OTU table", tableId := "None", generatedBy := "w",
+    date := "2011-12-19" }
+
+def wH : H5 := h5Of wT ["taxonomy"] []
+
+example : wT.wfb okDate = true := by decide
+example : validateJson okDate (docOf wT) = .valid := written_json_valid okDate wT (by decide)
+example : structuralB (docOf wT) = true := by decide
+example : validateH5 okDate wH = .valid := by decide
+example : structuralHB wH = true := by decide
+
+/-- instances of the one theorem: typical single and double mutations are corrupt, hence refused -/
+example : corrupt (apply (.dupId .rows 0 1) (docOf wT)) = true := by decide
+example : validateJson okDate (apply (.dupId .rows 0 1) (docOf wT)) = .invalid := by decide
+example : validateJson okDate (apply (.deleteKey "matrix_type") (docOf wT)) = .crash := by decide
+example : validateJson okDate (apply (.appendCoord (.arr [.int 2, .int 0, .flt 1])) (docOf wT)) = .invalid := by
+  decide
+example : validateJson okDate (apply (.setShape 3 3) (apply (.blankId .columns 2) (docOf wT))) = .invalid := by
+  decide
+example : validateJson okDate (apply (.setMetadata .rows 0 (.int 5)) (docOf wT)) = .invalid := by decide
+example : corrupt (apply (.swapElemType (.str "int")) (docOf wT)) = true := by decide
+
+/-- **Witnesses of the known finding (HDF5 validator looks at presence and lengths only).**
+    Each mutated tree is reported valid although the named conjunct of the property is false. -/
+theorem h5_index_out_of_range_witness :
+    validateH5 okDate (applyH (.setIndex .observation 0 3) wH) = .valid ∧
+    indicesB (applyH (.setIndex .observation 0 3) wH) = false := by decide
+
+theorem h5_index_negative_witness :
+    validateH5 okDate (applyH (.setIndex .sample 0 (-1)) wH) = .valid ∧
+    indicesB (applyH (.setIndex .sample 0 (-1)) wH) = false := by decide
+
+theorem h5_data_elem_type_witness :
+    validateH5 okDate (applyH (.retypeData .observation) wH) = .valid ∧
+    typedHB (applyH (.retypeData .observation) wH) = false := by decide
+
+theorem h5_indices_elem_type_witness :
+    validateH5 okDate (applyH (.retypeIndices .sample) wH) = .valid ∧
+    typedHB (applyH (.retypeIndices .sample) wH) = false := by decide
+
+theorem h5_blank_id_witness :
+    validateH5 okDate (applyH (.blankId .observation 0) wH) = .valid ∧
+    idsNonEmptyHB (applyH (.blankId .observation 0) wH) = false := by decide
+
+theorem h5_dup_id_witness :
+    validateH5 okDate (applyH (.dupId .sample 0 1) wH) = .valid ∧
+    idsDistinctHB (applyH (.dupId .sample 0 1) wH) = false := by decide
+
+theorem h5_missing_md_group_witness :
+    validateH5 okDate (applyH (.deleteNode ["observation", "metadata"]) wH) = .valid ∧
+    mdGroupsB (applyH (.deleteNode ["observation", "metadata"]) wH) = false := by decide
+
+/-- a wrong-length observation category stops the metadata pass before the sample axis is looked at -/
+theorem h5_sample_md_not_group_witness :
+    validateH5 okDate (applyH (.groupToDataset ["sample", "metadata"])
+      (updNode wH ["observation", "metadata", "taxonomy"] (fun _ => .ds (some 5) (.other 5)))) = .valid ∧
+    sampleMdHB (applyH (.groupToDataset ["sample", "metadata"])
+      (updNode wH ["observation", "metadata", "taxonomy"] (fun _ => .ds (some 5) (.other 5)))) = false := by
+  decide
+
+/-- the full HDF5 statement is false: validity does not imply the structural facts -/
+theorem valid_h5_structural_witness :
+    ¬ (∀ h : H5, validateH5 okDate h = .valid → structuralHB h = true) := by
+  intro hall
+  have := hall _ h5_index_out_of_range_witness.1
+  revert this
+  decide
+
 end Biom.C15
